@@ -39,6 +39,10 @@ pub struct St {
     len: usize,
     /// tamper base (full tamper alphabet) or round-trip-only length
     base: bool,
+    /// data dependent base: 0 = entropy from the stream; 1 = entropy searched so that the masked payload v ends in a
+    /// 0x00 byte; 2 = so that it starts with a 0x00 byte (the reference computes v during the search)
+    #[serde(default)]
+    pick: u8,
     devs: Vec<Dev>,
 }
 
@@ -47,7 +51,16 @@ pub struct M11<C: Suite> {
     seed: u64,
     sks: Vec<SecretKey<C>>,
     lens: Vec<usize>,
+    /// special[k][pick - 1]: entropy for the data dependent bases (5 byte message)
+    special: Vec<Vec<[u8; 32]>>,
     _c: PhantomData<C>,
+}
+
+/// the 32 bytes a sealer draws from the CS-PRNG the entropy seam seeds with `seed`
+fn drawn(seed: &[u8; 32]) -> [u8; 32] {
+    use rand::Rng;
+    use rand_core::SeedableRng;
+    rand_chacha::ChaCha20Rng::from_seed(*seed).gen::<[u8; 32]>()
 }
 
 pub fn lens_for(tier: Tier) -> Vec<usize> {
@@ -65,18 +78,39 @@ pub fn lens_for(tier: Tier) -> Vec<usize> {
 impl<C: Suite> M11<C> {
     pub fn new(tier: Tier, seed: u64) -> Self {
         let ka = key_alphabet(seed, false);
-        let sks = [3usize, 2, 4, 0, 5].iter().map(|i| sk_from_be::<C>(&ka.be[*i]).unwrap()).collect();
+        let sks: Vec<SecretKey<C>> = [3usize, 2, 4, 0, 5].iter().map(|i| sk_from_be::<C>(&ka.be[*i]).unwrap()).collect();
+        let msg = msg_of(seed, 5, 3);
+        let mut special = vec![];
+        for k in 0..2 {
+            let rpk = <C::R as RefSuite>::pk_from(&Vec::<u8>::from(&sks[k].public_key())).expect("honest key");
+            let mut found: Vec<Option<[u8; 32]>> = vec![None, None];
+            for i in 0..100_000u32 {
+                let e = data32(seed, &format!("c11-special-{}-{}", k, i));
+                let v = rf::signcrypt_seal::<C::R>(&rpk, &msg, Scheme::Basic, &drawn(&e)).v;
+                if v[v.len() - 1] == 0 && found[0].is_none() {
+                    found[0] = Some(e);
+                }
+                if v[0] == 0 && found[1].is_none() {
+                    found[1] = Some(e);
+                }
+                if found.iter().all(|f| f.is_some()) {
+                    break;
+                }
+            }
+            special.push(found.into_iter().map(|f| f.expect("an entropy value with the wanted masked byte")).collect());
+        }
         M11 {
             tier,
             seed,
             sks,
+            special,
             lens: lens_for(tier),
             _c: PhantomData,
         }
     }
     fn seal(&self, st: &St) -> (SignCryptCiphertext<C>, Vec<u8>) {
         let msg = msg_of(self.seed, st.len, 3);
-        let ent = entropy_stream(self.seed, &format!("c11-{}-{}-{}", st.s.name(), st.k, st.len), 1);
+        let ent = if st.pick > 0 { vec![self.special[st.k][st.pick as usize - 1]] } else { entropy_stream(self.seed, &format!("c11-{}-{}-{}", st.s.name(), st.k, st.len), 1) };
         let pk = self.sks[st.k].public_key();
         let ct = with_env(ent, None, || pk.sign_crypt(lib_scheme(st.s), &msg)).expect("sign_crypt panicked");
         (ct, msg)
@@ -102,14 +136,17 @@ impl<C: Suite> Model for M11<C> {
         for s in SCHEMES {
             for k in 0..2 {
                 for &len in &self.lens {
-                    v.push(St { s, k, len, base: false, devs: vec![] });
+                    v.push(St { s, k, len, base: false, pick: 0, devs: vec![] });
                 }
                 for len in [5usize, 33] {
-                    v.push(St { s, k, len, base: true, devs: vec![] });
+                    v.push(St { s, k, len, base: true, pick: 0, devs: vec![] });
+                }
+                for pick in 1..=2u8 {
+                    v.push(St { s, k, len: 5, base: true, pick, devs: vec![] });
                 }
                 if k == 0 {
                     // 64 KiB base: selected positions only (ends and middle of v, truncation, extension)
-                    v.push(St { s, k, len: 65536, base: true, devs: vec![] });
+                    v.push(St { s, k, len: 65536, base: true, pick: 0, devs: vec![] });
                 }
             }
         }
@@ -148,8 +185,12 @@ impl<C: Suite> Model for M11<C> {
                     a.push(Dev::TruncV(l));
                 }
             } else {
+                let (vs, ve, _) = Self::regions(&ct);
                 for i in 0..ser.len() * 8 {
-                    a.push(Dev::BitFlip(i));
+                    // data dependent bases: flips inside v (and its length prefix) only
+                    if st.pick == 0 || (i / 8 >= vs && i / 8 < ve) {
+                        a.push(Dev::BitFlip(i));
+                    }
                 }
                 for l in 0..ct.v.len() {
                     a.push(Dev::TruncV(l));
@@ -157,6 +198,9 @@ impl<C: Suite> Model for M11<C> {
             }
             a.push(Dev::ExtV(0x00));
             a.push(Dev::ExtV(0xFF));
+            if st.pick > 0 {
+                return a;
+            }
             for l in SCHEMES {
                 if l != st.s {
                     a.push(Dev::Label(l));
@@ -197,7 +241,15 @@ impl<C: Suite> Model for M11<C> {
         Some(n)
     }
     fn describe(&self, st: &St) -> String {
-        format!("{} {} key#{} message length {}: sign_crypt, deviations {:?}, is_valid / decrypt / decryption-key decrypt", C::G, st.s.name(), st.k, st.len, st.devs)
+        format!(
+            "{} {} key#{} message length {}{}: sign_crypt, deviations {:?}, is_valid / decrypt / decryption-key decrypt",
+            C::G,
+            st.s.name(),
+            st.k,
+            st.len,
+            ["", " (v ends in 0x00)", " (v starts with 0x00)"][st.pick as usize],
+            st.devs
+        )
     }
     fn required_outcomes(&self) -> Vec<String> {
         vec![
